@@ -167,3 +167,34 @@ Proof.
   unfold zlen. rewrite Nat2Z.id. rewrite nth_error_app2 by lia.
   rewrite Nat.sub_diag. reflexivity.
 Qed.
+
+Lemma split3 {A} (d : list A) a b : 0 <= a -> a <= b -> b <= zlen d ->
+  exists p x s, d = p ++ x ++ s /\ zlen p = a /\ zlen x = b - a.
+Proof.
+  intros Ha Hab Hb.
+  exists (firstn (Z.to_nat a) d), (firstn (Z.to_nat (b - a)) (skipn (Z.to_nat a) d)),
+         (skipn (Z.to_nat (b - a)) (skipn (Z.to_nat a) d)).
+  split; [rewrite firstn_skipn, firstn_skipn; reflexivity|].
+  unfold zlen in *. rewrite !firstn_length, skipn_length. lia.
+Qed.
+
+Lemma slice_app_l {A} (d t : list A) a b : 0 <= a -> a <= b -> b <= zlen d ->
+  slice (d ++ t) a b = slice d a b.
+Proof.
+  intros Ha Hab Hb. destruct (split3 d a b Ha Hab Hb) as (p & x & s & -> & Hp & Hx).
+  replace ((p ++ x ++ s) ++ t) with (p ++ x ++ (s ++ t)) by (repeat rewrite <- app_assoc; reflexivity).
+  rewrite !slice_mid; auto; lia.
+Qed.
+
+Lemma slice_app_r {A} (p d : list A) a b : 0 <= a -> a <= b -> b <= zlen d ->
+  slice (p ++ d) (zlen p + a) (zlen p + b) = slice d a b.
+Proof.
+  intros Ha Hab Hb. destruct (split3 d a b Ha Hab Hb) as (q & x & s & -> & Hq & Hx).
+  replace (p ++ q ++ x ++ s) with ((p ++ q) ++ x ++ s) by (repeat rewrite <- app_assoc; reflexivity).
+  rewrite !slice_mid; auto; rewrite ?zlen_app; lia.
+Qed.
+
+Lemma rd_s_app_l n bo d t a : 0 <= a -> a + Z.of_nat n <= zlen d -> rd_s n bo (d ++ t) a = rd_s n bo d a.
+Proof. intros. unfold rd_s. rewrite slice_app_l by lia. reflexivity. Qed.
+Lemma rd_s_app_r n bo p d a : 0 <= a -> a + Z.of_nat n <= zlen d -> rd_s n bo (p ++ d) (zlen p + a) = rd_s n bo d a.
+Proof. intros. unfold rd_s. rewrite <- Z.add_assoc. rewrite slice_app_r by lia. reflexivity. Qed.
